@@ -98,6 +98,40 @@ def run(ctx: Ctx):
                f"history column `{k}` is restored from column `{src}` with `{conv}` (expected `{want}` of its "
                f"own column): a restarted controller would continue from different state", rel, cache.line,
                sample=dict(column=k, parsed_from=src, conv=conv))
+    # user-defined entries: restored for EVERY row (inside the reader loop), from the same-named column, with the
+    # declared type; no variable of the reader loop is used after the loop (stale last row)
+    row_loops = [n for n in own_nodes(cache.node) if isinstance(n, ast.For) and isinstance(n.iter, ast.Name)
+                 and any(isinstance(d.value, ast.Call) and call_name(d.value).endswith("DictReader")
+                         for d in rd_cache.defs_of(n.iter))]
+    if len(row_loops) != 1:
+        raise AnalysisError("C15: the csv.DictReader row loop of update_cache was not found")
+    rl = row_loops[0]
+    inside = {id(x) for x in ast.walk(rl)}
+    loop_defs = {id(d) for d in rd_cache.defs if d.stmt is not None and id(d.stmt) in inside and d.kind != "item"}
+    stale = [n for n in own_nodes(cache.node) if isinstance(n, ast.Name) and isinstance(n.ctx, ast.Load)
+             and id(n) not in inside and any(id(d) in loop_defs for d in rd_cache.defs_of(n))]
+    col.ob("G16", "S1", f"{W('update_cache')}::no-row-variable-used-after-the-row-loop", not stale,
+           f"`{stale[0].id if stale else ''}` (bound per history row) is used after the row loop: only the last row "
+           f"would be processed, earlier epochs lose the data", rel, stale[0].lineno if stale else cache.line,
+           sample=[f"{n.id}@{n.lineno}" for n in stale])
+    urest = []
+    for n in ast.walk(rl):
+        if isinstance(n, ast.For) and "user_entry_types" in u(n.iter) and isinstance(n.target, ast.Tuple) \
+                and len(n.target.elts) == 2:
+            kn, tn = [x.id for x in n.target.elts]
+            for st_ in n.body:
+                if isinstance(st_, ast.Assign) and isinstance(st_.targets[0], ast.Subscript):
+                    t = st_.targets[0]
+                    okk = u(t.slice) == kn and u(t.value) == "self.cache_hist[epoch]" and isinstance(st_.value, ast.Call) \
+                        and u(st_.value.func) == tn and len(st_.value.args) == 1 and isinstance(st_.value.args[0], ast.Subscript) \
+                        and u(st_.value.args[0].slice) == kn and u(st_.value.args[0].value) == rl.target.id
+                    urest.append(okk)
+    col.ob("G13", "S1", f"{W('update_cache')}::user-entries-restored-per-row", urest == [True],
+           "user-defined entries are not restored, for every history row, as type(row[name]) under their own name",
+           rel, rl.lineno, sample=urest)
+    wr_user = any(isinstance(n, ast.AugAssign) and "user_entry_types" in u(n.value) for n in own_nodes(hist.node))
+    col.ob("G13", "S1", f"{W('save_info_to_hist')}::user-entries-written", wr_user,
+           "user-defined entries are not appended to the written column list", rel, hist.line)
     col.ob("G13", "S1", f"{W('update_cache')}::epoch0-row-keys", set(seed_keys) == cols,
            f"the epoch-0 row seeds {sorted(seed_keys)}; written columns are {sorted(cols)}", rel, cache.line,
            sample=dict(seeded=sorted(seed_keys)))
@@ -477,6 +511,9 @@ def _mutants():
           "new-lr=old*factor"),
         M("fmt-key-mixup", T, "wr.writerow([self.fmt_dict[k].format(info[k]) for k in names])",
           "wr.writerow([self.fmt_dict['lr'].format(info[k]) for k in names])", "row=fmt[k]"),
+        M("user-entries-outside-row-loop", T,
+          "self._barrier()\n            return\n        with open(self.state_csv_path) as f:", "self._barrier()\n            return\n        with open(self.state_csv_path) as f:",
+          "", twin=True),
         M("twin:rename-info", T, "info", "row_", "", -1, twin=True),
     ]
 
